@@ -1,10 +1,13 @@
 /-
   Spec/SerFrag.lean — the serializable fragment of C05 on which the round trip is exact, as a
   decidable predicate on (declaration, stored value): scalars, Enum by name, JSON-literal enums,
-  Array/Deque/Tuple (homogeneous or positional without surplus elements), at any nesting depth.
-  Nested structures, Optional, Set / Map / untyped collections / Anything / OneOf / AllOf / NotField
-  are outside this predicate: for them the round trip is decided by the correspondence harness
-  (the model mirrors their code paths); the field-level theorems are therefore `_partial`.
+  Array/Deque/Tuple (homogeneous or positional without surplus elements), nested Structure classes
+  (instances of exactly the declared class, attributes in constructor order, every set attribute
+  not None and itself in the fragment, every unset field optional without a default) and
+  `Optional[X]` (`AnyOf[NoneField, X]`) holding a value, at any nesting depth.
+  StructureReference, Set / Map / untyped collections / Anything / OneOf / AllOf / NotField /
+  wider AnyOf are outside this predicate: for them the round trip is decided by the correspondence
+  harness (the model mirrors their code paths); the field-level theorems are therefore `_partial`.
 -/
 import TypedpyModel.Sem.Deser
 import TypedpyModel.Spec.Conforms
@@ -17,6 +20,14 @@ def jsonScalar : PyVal → Bool
 def numJson : PyVal → Bool
   | .int _ | .float _ | .bool _ => true
   | _ => false
+
+def isNoneF : FieldDecl → Bool
+  | .noneF => true
+  | _ => false
+
+/-- a field that may stay unset: not required and without a default the constructor would fill in -/
+def absentOk (c : ClassOpts) (defaults : List (String × PyVal)) (n : String) : Bool :=
+  !c.required.contains n && (match lookup n defaults with | none => true | some d => d.isNone)
 
 mutual
 def inFrag (O : Oracles) : FieldDecl → PyVal → Bool
@@ -33,8 +44,36 @@ def inFrag (O : Oracles) : FieldDecl → PyVal → Bool
   | .tupleOf f _, v => (match seqLike v with | some xs => xs.all (inFrag O f) | none => false)
   | .tuplePos fs _, v =>
     (match seqLike v with | some xs => xs.length == fs.length && inFragZip O fs xs | none => false)
+  | .struct c fields defaults, v =>
+    !c.inline && c.accepts.contains c.name && decide ((fields.map (·.1)).Nodup)
+      && (match v with
+          | .inst n attrs =>
+            n == c.name && c.required.all (fun r => (lookup r attrs).isSome)
+              && canonAttrs O c defaults fields attrs
+          | _ => false)
+  | .anyOf fs, v => inFragOpt O fs v
   | _, _ => false
 termination_by structural f _ => f
+
+/-- `Optional[X]` = `AnyOf[NoneField, X]` holding a (non-None) value of the fragment of `X` -/
+def inFragOpt (O : Oracles) : List FieldDecl → PyVal → Bool
+  | [], _ => false
+  | [_], _ => false
+  | f :: g :: [], v => isNoneF f && !v.isNone && conforms O g v && inFrag O g v
+  | _ :: _ :: _ :: _, _ => false
+termination_by structural fs _ => fs
+
+/-- the attribute list of an instance as the constructor builds it: declared fields only, in
+    constructor order, each set value not None, conforming and in the fragment; each unset field
+    may stay unset -/
+def canonAttrs (O : Oracles) (c : ClassOpts) (defaults : List (String × PyVal)) :
+    List (String × FieldDecl) → List (String × PyVal) → Bool
+  | [], attrs => attrs.isEmpty
+  | (n, _) :: rest, [] => absentOk c defaults n && canonAttrs O c defaults rest []
+  | (n, f) :: rest, (m, v) :: as =>
+    if m == n then !v.isNone && conforms O f v && inFrag O f v && canonAttrs O c defaults rest as
+    else absentOk c defaults n && canonAttrs O c defaults rest ((m, v) :: as)
+termination_by structural fs _ => fs
 
 def inFragZip (O : Oracles) : List FieldDecl → List PyVal → Bool
   | [], _ => true
